@@ -56,7 +56,13 @@ def canonicalize_url(
 
     # Path normalization
     if path:
+        # NOTE: a trailing slash (or a trailing dot segment, which resolves to
+        # one) is meaningful and must survive the normalization
+        trailing_slash = path.endswith(("/", "/.", "/.."))
         path = normpath(path)
+
+        if trailing_slash and path:
+            path += "/"
 
     # Empty path etc.
     if not path or path == "/":
